@@ -32,6 +32,15 @@ CLAIMED = {
         "Does not decide value domains (huge ints, Decimal text, time zones, microseconds).",
         "Trusted: Python class lattice of the stdlib types, lxml attribute storage; codec value behaviour is only partly covered (C18).",
         "DESIGN.md §4 C06"),
+    "C12": (
+        "whole-registry static enumeration: registry replica in import order, PropDef/define pairing, constructor-argument flow by three-valued abstract execution, keyword-acceptance chains along the MRO, store-target resolution, getter/setter attribute agreement, namespace-prefix resolution",
+        "Partial, structural, over the whole registry (not a sample): every Element subclass is registered once with an effective tag and is reachable "
+        "by import; every class with PropDefs defines them; each of the ~270 constructor parameters reaches an effect when provided; no keyword "
+        "passed to a constructor inside the package is swallowed by **kwargs; wrappers are only built through from_tag; all ~590 prefix:name constants "
+        "resolve; constructor stores land on real properties and are not cross-wired; explicit getter/setter pairs name a common attribute. "
+        "Equality of infosets and value conversions inside getters are not decided.",
+        "Trusted: import-order replay of module-level statements; Python attribute lookup along the MRO; two open known findings (TabStopStyle shadowed, Style.data_style unused).",
+        "DESIGN.md §4 C12"),
     "C14": (
         "taint analysis: string-builder flattening, quoted/predicate field detection, local def-use closure, interprocedural sink-parameter and query-return summaries (fixpoint)",
         "Decides the mechanism of the property for every lookup: no run-time string reaches an XPath sink between quote characters or "
